@@ -117,6 +117,9 @@ def run_case(case, arrays, classes, mon, viol, skip=()):
         mon['configs'] = mon.get('configs', 0) + 1
         mon['cfg_' + cls] = mon.get('cfg_' + cls, 0) + 1
         crng = np.random.default_rng(case['seed2'] + 17)
+        # one scratch list for all queries of this configuration, as a
+        # caller that re-orders often would keep (the call must reset it)
+        scratch = LongArray()
         next_uid = [10 ** 6]
         for rep in range(case['repeats']):
             if rep and crng.random() < 0.6:
@@ -126,6 +129,8 @@ def run_case(case, arrays, classes, mon, viol, skip=()):
                 # remove some, then update
                 for pa in pas:
                     nr = pa.num_real_particles
+                    if nr == 0:
+                        continue        # nothing but Remote / Ghost rows
                     if crng.random() < 0.6 or nr < 4:
                         kk = int(crng.integers(1, max(2, nr // 3) + 1))
                         idx = np.unique(crng.integers(0, nr, size=kk))
@@ -151,7 +156,7 @@ def run_case(case, arrays, classes, mon, viol, skip=()):
             nreal = [pa.num_real_particles for pa in pas]
             for k, pa in enumerate(pas):
                 n = pa.get_number_of_particles()
-                ind = LongArray()
+                ind = scratch if case['idx'] % 2 else LongArray()
                 nn.get_spatially_ordered_indices(k, ind)
                 got = ind.get_npy_array().copy()
                 mon['index_lists'] = mon.get('index_lists', 0) + 1
